@@ -530,9 +530,11 @@ def term(case, o):
 
 
 def perturb(case, o):
+    # an observation no run of the model can produce (no generated callable raises class 99), so the canary is
+    # flagged even when the implementation's own verdict on this case is already the wrong one
     o = dict(o)
     v = list(o["verdicts"])
-    v[0] = "X" if v[0] == "M" else "M"
+    v[0] = ["P", 99]
     o["verdicts"] = v
     return o
 
